@@ -1127,6 +1127,32 @@ func ruleSIZE(c *Checker) {
 // sizeShape recognises size() = top-base if top>=base else top+(s-base).
 func sizeShape(w *World, size *ssa.Function) (bool, string) {
 	const top, base, s = "load(gbn.queue.sequenceTop)", "load(gbn.queue.sequenceBase)", "load(gbn.queueCfg.s)"
+	isC := func(k string) func(ssa.Value) bool {
+		return func(v ssa.Value) bool { return w.canonFB(v) == k }
+	}
+	// linear form of a uint8 expression over top, base, s: uint8 addition and
+	// subtraction are exact modulo 256, so every parenthesisation and operand
+	// order of the same linear combination is the same function.
+	var lin func(v ssa.Value, sign int, acc map[string]int) bool
+	lin = func(v ssa.Value, sign int, acc map[string]int) bool {
+		v = unwrapLoadAlloc(v)
+		if b, ok := v.Type().Underlying().(*types.Basic); !ok || b.Kind() != types.Uint8 {
+			return false
+		}
+		if bo, ok := v.(*ssa.BinOp); ok && (bo.Op == token.ADD || bo.Op == token.SUB) {
+			ys := sign
+			if bo.Op == token.SUB {
+				ys = -sign
+			}
+			return lin(bo.X, sign, acc) && lin(bo.Y, ys, acc)
+		}
+		switch k := w.canonFB(v); k {
+		case top, base, s:
+			acc[k] += sign
+			return true
+		}
+		return false
+	}
 	var forms []string
 	ok := true
 	allInstrs(size, func(in ssa.Instruction) {
@@ -1134,34 +1160,23 @@ func sizeShape(w *World, size *ssa.Function) (bool, string) {
 		if !isRet || ret.Block().Comment == "recover" {
 			return
 		}
-		v := unwrapLoadAlloc(ret.Results[0])
-		cv := w.canonFB(v)
-		geq := hasFact(ret.Block(), func(f Fact) bool {
-			bo, okb := f.Cond.(*ssa.BinOp)
-			if !okb {
-				return false
+		rel := ""
+		hasFact(ret.Block(), func(f Fact) bool {
+			if r := factRel(f, isC(top), isC(base)); r != "" {
+				rel = r
 			}
-			x, y := w.canonFB(bo.X), w.canonFB(bo.Y)
-			return (bo.Op == token.GEQ && x == top && y == base && f.Val) || (bo.Op == token.LEQ && x == base && y == top && f.Val) ||
-				(bo.Op == token.LSS && x == top && y == base && !f.Val) || (bo.Op == token.GTR && x == base && y == top && !f.Val)
+			return false
 		})
-		lss := hasFact(ret.Block(), func(f Fact) bool {
-			bo, okb := f.Cond.(*ssa.BinOp)
-			if !okb {
-				return false
-			}
-			x, y := w.canonFB(bo.X), w.canonFB(bo.Y)
-			return (bo.Op == token.GEQ && x == top && y == base && !f.Val) || (bo.Op == token.LEQ && x == base && y == top && !f.Val) ||
-				(bo.Op == token.LSS && x == top && y == base && f.Val) || (bo.Op == token.GTR && x == base && y == top && f.Val)
-		})
+		acc := map[string]int{}
+		isLin := lin(ret.Results[0], 1, acc)
 		switch {
-		case cv == "("+top+"-"+base+")" && geq:
+		case isLin && acc[top] == 1 && acc[base] == -1 && acc[s] == 0 && (rel == ">=" || rel == ">" || rel == "=="):
 			forms = append(forms, "top-base if top>=base")
-		case (cv == "("+top+"+("+s+"-"+base+"))" || cv == "(("+s+"-"+base+")+"+top+")") && lss:
+		case isLin && acc[top] == 1 && acc[base] == -1 && acc[s] == 1 && (rel == "<"):
 			forms = append(forms, "top+(s-base) if top<base")
 		default:
 			ok = false
-			forms = append(forms, "unrecognised: "+cv)
+			forms = append(forms, "unrecognised: "+w.canonFB(unwrapLoadAlloc(ret.Results[0]))+" under top "+rel+" base")
 		}
 	})
 	if len(forms) == 0 {
